@@ -142,8 +142,11 @@ type jEntity struct {
 	Events   []*jEvent
 	Commands []*jService
 	Summary  [][]*jF
+	// SummaryNames[i] names Summary[i] ("" = the default "Summary")
+	SummaryNames []string
 	// query options
-	EventsInGet bool
+	EventsInGet         bool
+	DefaultStatusFilter []string
 }
 
 type jElem struct {
@@ -630,6 +633,9 @@ func (r *j5Renderer) entity(depth int, e *jEntity) {
 	if e.EventsInGet {
 		r.line(depth+1, "query.eventsInGet = true")
 	}
+	if len(e.DefaultStatusFilter) > 0 {
+		r.line(depth+1, "query.defaultStatusFilter = ["+strings.Join(quoteAll(e.DefaultStatusFilter), ", ")+"]")
+	}
 	for _, k := range e.Keys {
 		r.sb.WriteString("\n")
 		r.entityKey(depth+1, k, e.Shard[k.Name])
@@ -654,9 +660,13 @@ func (r *j5Renderer) entity(depth int, e *jEntity) {
 		r.sb.WriteString("\n")
 		r.service(depth+1, c, "command")
 	}
-	for _, s := range e.Summary {
+	for i, s := range e.Summary {
 		r.sb.WriteString("\n")
-		r.line(depth+1, "summary {")
+		if i < len(e.SummaryNames) && e.SummaryNames[i] != "" {
+			r.line(depth+1, "summary "+e.SummaryNames[i]+" {")
+		} else {
+			r.line(depth+1, "summary {")
+		}
 		for _, f := range s {
 			r.field(depth+2, "field", f)
 		}
